@@ -15,6 +15,18 @@ enum { S_IF, S_IFDEF, S_IFNDEF, S_IFUSED, S_IFNUSED, S_IFEXIST, S_IFNEXIST, S_IF
 
 unsigned char in_kind[K], in_argc[K], in_ok[K], in_def[K], in_blank[K];
 LargeInt in_c1[K], in_c2[K];
+#ifdef TYPES
+/* typed SWITCH/CASE operands, 0 integer, 1 float, 2 string.  Statement 0 is the SWITCH with a selector of type SELTY; the
+ * first (and third) entry of every CASE list has type A1TY, the second A2TY.  Types are compile-time constants per obligation
+ * (a symbolic type tag makes CBMC explore freeing the union's bytes as a string pointer: solver out of memory, measured).
+ * Float and string operands take one of four values selected by the low two bits of the operand value. */
+static const double fl_tab[4] = { 0.0, 1.0, 2.5, -3.0 };
+#define TY1(i) ((i) == 0 ? SELTY : A1TY)
+#define TY2(i) A2TY
+#else
+#define TY1(i) 0
+#define TY2(i) 0
+#endif
 
 /* ---------------- environment stubs (contracts) ---------------- */
 static int cur;                                  /* statement being executed */
@@ -27,8 +39,19 @@ LargeInt EvalStrIntExpressionWithFlags(const struct sStrComp* pExpr, IntType Typ
 void EvalStrExpression(const struct sStrComp* pExpr, TempResult* pErg)
 {
   /* arbitrary integer value per argument; 'evaluation failed' modelled by in_ok */
-  if (!(in_ok[cur] & 1)) { as_tempres_set_none(pErg); return; }
+  as_tempres_set_none(pErg);                       /* as the real evaluator does first (releases a string the buffer held) */
+  if (!(in_ok[cur] & 1)) return;
+#ifdef TYPES
+  {
+    int second = (pExpr == &ArgStr[2]), ty = second ? TY2(cur) : TY1(cur);
+    LargeInt v = second ? in_c2[cur] : in_c1[cur];
+    if (ty == 1) as_tempres_set_float(pErg, fl_tab[v & 3]);
+    else if (ty == 2) { char b1[2]; b1[0] = (char)('a' + (v & 3)); b1[1] = 0; as_tempres_set_str_raw(pErg, b1, 1); }   /* one-character strings "a".."d" */
+    else as_tempres_set_int(pErg, v);
+  }
+#else
   as_tempres_set_int(pErg, (pExpr == &ArgStr[2]) ? in_c2[cur] : in_c1[cur]);
+#endif
   pErg->Flags = eSymbolFlag_None;
 }
 Boolean IsSymbolDefined(const struct sStrComp* pName) { (void)pName; return in_def[cur] & 1; }
@@ -41,7 +64,7 @@ void AddSuffix(char* s, char const* Suff) { (void)s; (void)Suff; }
 void SetListLineVal(TempResult* t) { (void)t; }
 
 /* ---------------- reference interpreter ---------------- */
-typedef struct { int is_switch, state, outer, found; LargeInt sel; } mframe;   /* state: 0 open, 1 after ELSE/ELSECASE */
+typedef struct { int is_switch, state, outer, found, selty; LargeInt sel; } mframe;   /* state: 0 open, 1 after ELSE/ELSECASE */
 static mframe ms[K + 1];
 static int mdepth, mactive;
 
@@ -55,6 +78,9 @@ static int model_step(int i)
   int k = in_kind[i], argc = in_argc[i], cond, j, blank;
   mframe* t = mdepth ? &ms[mdepth - 1] : 0;
   LargeInt c1 = (in_ok[i] & 1) ? in_c1[i] : 1, c2 = (in_ok[i] & 1) ? in_c2[i] : 1;   /* failed evaluation counts as 1 */
+  int t1 = (in_ok[i] & 1) ? TY1(i) : 0, t2 = (in_ok[i] & 1) ? TY2(i) : 0;
+  if (t1) c1 &= 3;
+  if (t2) c2 &= 3;
   switch (k)
   {
     case S_IF: case S_IFDEF: case S_IFNDEF: case S_IFUSED: case S_IFNUSED: case S_IFEXIST: case S_IFNEXIST:
@@ -93,14 +119,15 @@ static int model_step(int i)
       return 1;
     case S_SWITCH:
       if (mactive && argc != 1) return 0;
-      ms[mdepth].is_switch = 1; ms[mdepth].state = 0; ms[mdepth].outer = mactive; ms[mdepth].found = 0; ms[mdepth].sel = c1;
+      ms[mdepth].is_switch = 1; ms[mdepth].state = 0; ms[mdepth].outer = mactive; ms[mdepth].found = 0; ms[mdepth].sel = c1; ms[mdepth].selty = t1;
+      if (!(mactive && argc == 1)) { ms[mdepth].sel = 1; ms[mdepth].selty = 0; }
       mdepth++;
       return 1;
     case S_CASE:
       if (!t) return 0;
       if (argc < 1) return 0;
       if (!t->is_switch || t->state != 0) return 0;          /* CASE outside SWITCH or after ELSECASE */
-      cond = (c1 == t->sel) || (argc >= 2 && c2 == t->sel);
+      cond = (t1 == t->selty && c1 == t->sel) || (argc >= 2 && t2 == t->selty && c2 == t->sel);   /* any list entry of the selector's type and value */
       mactive = t->outer && !t->found && cond;
       if (t->outer && !t->found && cond) t->found = 1;
       return 1;
@@ -142,6 +169,11 @@ void harness(void)
     int wf, before;
     Boolean handled;
     ASSUME(in_kind[i] < S_NKINDS && in_argc[i] <= 3);
+#ifdef TYPES
+    ASSUME(in_ok[i] & 1);                   /* failed evaluation: covered by the integer obligations */
+    if (i == 0) ASSUME(in_kind[i] == S_SWITCH && in_argc[i] == 1);
+    else ASSUME(in_kind[i] > S_SWITCH);
+#endif
 #ifdef NO_IFEXIST
     ASSUME(in_kind[i] != S_IFEXIST && in_kind[i] != S_IFNEXIST);
 #endif
@@ -179,7 +211,14 @@ void harness(void)
     CHECK(SaveIFs() == mdepth, "construct stack depth equals nesting depth");
     CHECK((FirstIfSave == NULL) == (mdepth == 0), "construct stack empty exactly when no construct is open");
   }
+#ifdef TYPES
+  int c_differs = (TY1(1) != TY1(0)) || ((TY1(1) ? (in_c1[1] & 3) : in_c1[1]) != (TY1(0) ? (in_c1[0] & 3) : in_c1[0]));
+#endif
   if (mdepth == 0) WITNESS("balanced program end");
+#ifndef TYPES
   if (mdepth >= 3) WITNESS("nesting depth 3");
+#elif A2TY == SELTY
+  if (K >= 2 && in_kind[1] == S_CASE && in_argc[1] == 2 && TY2(1) == TY1(0) && c_differs && mactive) WITNESS("CASE list matched on its second entry only");
+#endif
   WITNESS("end");
 }
